@@ -180,9 +180,9 @@ func c19DocsAssets(c *Ctx, binEnv string, rounds int, raceBase string, done chan
 	// - the moment in which the file server builds its compressed copy - by one client alone on one server and by 40
 	// clients at the same moment on the next
 	freshDone := make(chan struct{})
+	frng := c.RNG.Fork(7300) // forked here: the goroutine below runs beside the rounds, which fork too
 	go func() {
 		defer close(freshDone)
-		frng := c.RNG.Fork(7300)
 		t0 := time.Now()
 		defer func() { r.Extra["docs_asset_fresh_server_phase_seconds:"+binEnv] = int(time.Since(t0).Seconds()) }()
 		for f := 0; f < 12*rounds; f++ {
